@@ -284,7 +284,11 @@ func (ex *Exec) concretize(t *Term, where string) uint64 {
 	}
 	for n := 0; ; n++ {
 		if n > ex.cfg.MaxConcretize {
-			panic(abortPath{"budget", fmt.Sprintf("more than %d values when concretizing at %s", ex.cfg.MaxConcretize, where)})
+			loc := ""
+			if ex.lastFrame != nil && ex.lastInstr != nil {
+				loc = fmt.Sprintf(" [in %s at %s]", ex.lastFrame.fn, ex.posOf(ex.lastFrame, ex.lastInstr.Pos()))
+			}
+			panic(abortPath{"budget", fmt.Sprintf("more than %d values when concretizing at %s%s", ex.cfg.MaxConcretize, where, loc)})
 		}
 		var v uint64
 		if ex.pos < len(ex.prefix) {
